@@ -51,6 +51,10 @@ CORPUS = [
     "[s]\n=v\n",
     "[s]\n =v\n  =w\n",
     "x=1\n[\n",
+    # more than 12 entries in one section with a redefinition: an unstable sort (sort.Slice) flips the winner
+    "[s]\n" + "".join("k%02d=first %d\n" % (i, i) for i in range(12, 0, -1)) + "k04=second\n",
+    "[s]\n" + "".join("k%02d=v%d\n" % (i, i) for i in range(20, 0, -1)) + "k20=again\nk01 =again\n",
+    "[s]\nk07=early\n" + "".join("k%02d=v%d\n" % (i, i) for i in range(1, 16)) + "k07=late\n",
 ]
 
 
@@ -80,6 +84,34 @@ def gen_file(rng, malformed):
     return txt
 
 
+def gen_big(rng):
+    """One or two sections of 13-40 entry lines with redefinitions: sort.Slice (pdqsort above 12 elements) is not stable,
+    sort.SliceStable is. Layouts: descending / ascending / shuffled / organ-pipe keys, duplicates at the end or anywhere."""
+    lines = []
+    for s in range(1 if rng.random() < 0.8 else 2):
+        lines.append("[%s]" % rng.choice(["s", "t"]))
+        n = rng.randint(12, 26)
+        keys = ["k%02d" % i for i in range(n)]
+        layout = rng.choice(["desc", "desc", "asc", "shuffle", "pipe"])
+        if layout == "desc":
+            keys.reverse()
+        elif layout == "shuffle":
+            rng.shuffle(keys)
+        elif layout == "pipe":
+            keys = keys[::2] + keys[1::2][::-1]
+        ents = [(k, "1") for k in keys]                       # short values: the Coq cases file stays small
+        for d in range(rng.randint(1, 4)):
+            k = rng.choice(keys)
+            k2 = rng.choice([k, k, k + " ", " " + k])
+            e = (k2, "%d" % (d + 2))
+            if rng.random() < 0.5:
+                ents.append(e)
+            else:
+                ents.insert(rng.randint(0, len(ents)), e)
+        lines += ["%s=%s" % e for e in ents]
+    return "\n".join(lines) + "\n"
+
+
 def enc(s):
     b = s.encode("utf8")
     return b.hex() or "-"
@@ -95,7 +127,7 @@ def run(ck):
                       "ASCII/Unicode spaces, empty, with '.', '#', '['), values (with '=', braces, brackets, spaces), section "
                       "headers (plain, indented, trailing space, '=' inside, unterminated), comments, blank lines, LF / CRLF / "
                       "CRCRLF line ends, with or without final newline; a malformed stream adds lines without '=', empty keys "
-                      "and random character insertions. distinct_nontrivial = distinct files that Format accepts, that contain "
+                      "and random character insertions; plus files with sections of 13-40 entries (descending / ascending / shuffled / organ-pipe key order) holding 1-4 redefinitions, some with spaced keys (stability of the sort above Go's 12-element insertion-sort threshold). distinct_nontrivial = distinct files that Format accepts, that contain "
                       "at least two entries and that Format changes")
     ck.assume("message files are valid UTF-8 (the models work on code points)",
               "sort.SliceStable is a stable sort (modelled by stable insertion sort)")
@@ -123,6 +155,8 @@ def run(ck):
         files.append(gen_file(ck.rng, False))
     for _ in range(nmal):
         files.append(gen_file(ck.rng, True))
+    for _ in range(40 if quick else 500):
+        files.append(gen_big(ck.rng))
     if ck.replay_file:
         rp = json.load(open(ck.replay_file))["replay"]
         if "file_hex" in rp:
@@ -189,7 +223,9 @@ def run(ck):
                                     "with_duplicate_warning": sum(1 for i in F if F[i] and F[i][1] > 0),
                                     "crlf": sum(1 for t in files if "\r\n" in t),
                                     "compiler_panics_on_original": sum(1 for i in range(len(files)) if C.get(2 * i) is None),
-                                    "indented_header_lines": sum(1 for t in files if "\n [" in t or "\n\t[" in t)}
+                                    "indented_header_lines": sum(1 for t in files if "\n [" in t or "\n\t[" in t),
+                                    "sections_over_12_entries_with_redefinition": sum(1 for i, t in enumerate(files)
+                                                                                      if t.count("=") > 13 and F.get(i) and F[i][1] > 0)}
     for i in range(min(3, len(files))):
         ck.sample({"file": files[i], "formatted": F[i] and F[i][0], "dup_warnings": F[i] and F[i][1],
                    "table": C.get(2 * i) and C[2 * i][0]})
